@@ -46,7 +46,8 @@ void gen_hist_ops(Rng& g, Rng& fr, const std::string& prop, unsigned nops, bool 
       if (code == OP_DECREF && n_pool <= 1 && i + 1 < nops && tries < 10) continue;
       break;
     }
-    if (nops <= 40 && g.chance(1, prop == "C12" || prop == "C03" ? 2500 : 20000)) { HOp b; b.code = OP_BIG; b.a = prop == "C03" ? 3 : prop == "C12" ? g.below(3) : g.below(4); b.b = g.next() >> 8; b.c = g.next() >> 8; ops.push(hop_to_json(b)); }
+    if (nops <= 40 && g.chance(1, prop == "C12" || prop == "C03" ? 2500 : 20000)) { HOp b; b.code = OP_BIG; b.a = prop == "C03" ? 3 : prop == "C12" ? g.below(3) : g.below(4); b.b = g.next() >> 8; b.c = g.next() >> 8; b.d = g.below(16); ops.push(hop_to_json(b)); }
+    if (nops <= 40 && (prop == "C04" || prop == "C13" || prop == "C03") && g.chance(1, 6000)) { HOp b; b.code = OP_BIG; b.a = 5; b.b = g.next() >> 8; b.c = g.next() >> 8; ops.push(hop_to_json(b)); }   // encoding larger than SIZE_MAX
     if (marathon_refs && i == 0 && (prop == "C04" || prop == "C13") && g.chance(1, 150000)) { HOp b; b.code = OP_BIG; b.a = 4; b.c = g.next() >> 8; ops.push(hop_to_json(b)); }   // ~2^33 library calls: thorough tier only
     if (deep_follow > 0 && i + 1 < nops + 3) { static const int F[] = {OP_SIZE, OP_SERIALIZE, OP_SERIALIZE_ALLOC, OP_DESCRIBE, OP_COPY}; code = F[g.below(5)]; }
     bool growing = false;
@@ -101,7 +102,7 @@ J gen_hist(const std::string& prop, uint64_t run_seed, const std::string& tier) 
   knobs.set("rm", kn.below(2));
   knobs.set("maxreq", (uint64_t)1 << 20);
   knobs.set("fill", kn.below(4) == 0 ? kn.range(1, 2) : 0);   // fresh memory: mostly 0xAA, sometimes all-zero or all-ones
-  knobs.set("fpmode", kn.below(4) == 0 ? 1 : 0);   // a quarter of the runs with FTZ/DAZ set in the thread's MXCSR
+  knobs.set("fpmode", gen_fpmode(kn));   // the calling thread's floating-point environment: FTZ/DAZ in a quarter of the runs, a directed rounding mode in a quarter
   plan.set("knobs", knobs);
   bool long_run = kn.chance(1, 12);
   unsigned nops = long_run ? (unsigned)kn.range(100, tier == "thorough" ? 2500 : 500) : (unsigned)kn.range(2, 14);
@@ -109,7 +110,7 @@ J gen_hist(const std::string& prop, uint64_t run_seed, const std::string& tier) 
   marathon_refs = tier == "thorough";
   J ops = J::arr(); gen_hist_ops(g, fr, prop, nops, with_faults, ops);
   plan.set("ops", ops);
-  for (size_t i = 0; i < ops.size(); i++) if (ops[i].iu(0) == OP_BIG && ops[i].iu(1) % 5 == 4) { J k2 = plan.at("knobs"); k2.set("watchdog", 1800); plan.set("knobs", k2); }   // 2^33 calls take a while
+  for (size_t i = 0; i < ops.size(); i++) if (ops[i].iu(0) == OP_BIG && ops[i].iu(1) % 6 == 4) { J k2 = plan.at("knobs"); k2.set("watchdog", 1800); plan.set("knobs", k2); }   // 2^33 calls take a while
   J drop = J::arr(); for (int i = 0; i < 40; i++) drop.push(g.below(1000)); plan.set("drop", drop);
   return plan;
 }
